@@ -688,6 +688,9 @@ func init() {
 							if !ok {
 								return true
 							}
+							if id, ok := call.Fun.(*ast.Ident); ok && fbLocal[info.Uses[id]] && localFallbackAborts(s, info, info.Uses[id], fb) {
+								found = true // a local holding the custom fallback, or else a default that aborts
+							}
 							if se, ok := call.Fun.(*ast.SelectorExpr); ok {
 								if sel := info.Selections[se]; sel != nil {
 									if v, ok := sel.Obj().(*types.Var); ok && fb[v] {
@@ -1115,5 +1118,95 @@ func closureExitsOnAllPaths(info *types.Info, fl *ast.FuncLit, entryObj types.Ob
 		}
 	}
 	walk(g.Blocks[0])
+	return ok
+}
+
+// localFallbackAborts reports whether every value assigned to the local `obj` (a variable that holds the block
+// fallback hook) is either the adapter's fallback option itself or a function of the package whose body calls
+// c.Abort*(...) unconditionally (top-level statement), i.e. the default chosen when no fallback is configured.
+func localFallbackAborts(s *entrySite, info *types.Info, obj types.Object, fb map[*types.Var]bool) bool {
+	ok := true
+	isFb := func(e ast.Expr) bool {
+		if se, k := e.(*ast.SelectorExpr); k {
+			if sel := info.Selections[se]; sel != nil {
+				if v, k := sel.Obj().(*types.Var); k && fb[v] {
+					return true
+				}
+			}
+		}
+		return false
+	}
+	aborts := func(body *ast.BlockStmt) bool {
+		if body == nil {
+			return false
+		}
+		for _, st := range body.List {
+			if es, k := st.(*ast.ExprStmt); k {
+				if call, k := es.X.(*ast.CallExpr); k {
+					if se, k := call.Fun.(*ast.SelectorExpr); k {
+						if sel := info.Selections[se]; sel != nil {
+							if fn, k := sel.Obj().(*types.Func); k && strings.HasPrefix(fn.Name(), "Abort") {
+								return true
+							}
+						}
+					}
+				}
+			}
+		}
+		return false
+	}
+	check := func(rhs ast.Expr) {
+		rhs = ast.Unparen(rhs)
+		switch {
+		case isFb(rhs):
+		default:
+			switch r := rhs.(type) {
+			case *ast.FuncLit:
+				if !aborts(r.Body) {
+					ok = false
+				}
+			case *ast.Ident:
+				fn, k := info.Uses[r].(*types.Func)
+				if !k {
+					ok = false
+					return
+				}
+				var decl *ast.FuncDecl
+				for _, f := range s.pkg.Syntax {
+					for _, d := range f.Decls {
+						if fd, k := d.(*ast.FuncDecl); k && info.Defs[fd.Name] == fn {
+							decl = fd
+						}
+					}
+				}
+				if decl == nil || !aborts(decl.Body) {
+					ok = false
+				}
+			default:
+				ok = false
+			}
+		}
+	}
+	ast.Inspect(s.encl[0], func(x ast.Node) bool {
+		switch a := x.(type) {
+		case *ast.AssignStmt:
+			if len(a.Lhs) == len(a.Rhs) {
+				for i, l := range a.Lhs {
+					if id, k := l.(*ast.Ident); k && info.ObjectOf(id) == obj {
+						check(a.Rhs[i])
+					}
+				}
+			}
+		case *ast.ValueSpec:
+			if len(a.Names) == len(a.Values) {
+				for i, id := range a.Names {
+					if info.ObjectOf(id) == obj {
+						check(a.Values[i])
+					}
+				}
+			}
+		}
+		return true
+	})
 	return ok
 }
